@@ -25,7 +25,7 @@ from mcheck.oracles import types as O
 ID = "C01"
 KS = [0, 1, 2, 3, 10]
 FLAGS = [[], ["--ignore-existing-annotations"], ["--omit-existing-annotations"], ["--disable-type-rewriting"]]
-FKINDS = ["function", "method", "generator", "generator_ret", "coroutine", "classmethod", "annotated", "generator_alt", "function_alt", "generator_seq"]
+FKINDS = ["function", "method", "generator", "generator_ret", "coroutine", "classmethod", "annotated", "generator_alt", "function_alt", "generator_seq", "defaulted"]
 RULE = (
     "histories = every depth-1 grammar value alone + every unordered pair over 45 representative values (thorough: + "
     "depth-2 values and triples), each bound to its own generated function (7 function kinds in rotation, one parameter "
@@ -103,6 +103,9 @@ def gen_module(modname: str, hs: List[Tuple[str, ...]], base: int) -> Tuple[str,
             L += [f"def {fn}({pn}):", f"    return {pn}", ""]
         elif kind == "annotated":
             L += [f"def {fn}({pn}: object) -> object:", f"    return {pn}", ""]
+        elif kind == "defaulted":
+            # a parameter whose default is NOT None (a None that is passed explicitly is an observed value like any other)
+            L += [f"def {fn}({pn}=0):", f"    return {pn}", ""]
         elif kind == "generator":
             L += [f"def {fn}({pn}):", f"    yield {pn}", f"    yield {pn}", ""]
         elif kind == "generator_ret":
@@ -184,7 +187,7 @@ def drive(M, metas: List[Dict[str, Any]], observed: Dict[str, Dict[str, List[Any
                 continue
             obs["param"].append(v)
             try:
-                if kind in ("function", "annotated"):
+                if kind in ("function", "annotated", "defaulted"):
                     obs["return"].append(getattr(M, m["fn"])(v))
                 elif kind == "method":
                     obs["return"].append(getattr(M.K(), m["fn"])(v))
